@@ -1,6 +1,7 @@
 package harness
 
 import (
+	"bytes"
 	"context"
 	"fmt"
 	"io"
@@ -154,12 +155,13 @@ func c04GRPCStreams(c *sim.RunCtx) {
 	faultRate := []int{0, 80, 250}[t.Choose(3)]
 	streamRate := []int{0, 100, 300}[t.Choose(3)]
 	clients := 1 + t.Choose(3)
-	type gop struct{ Kind, Obj, Mode, How, Arg int }
+	// Cancel > 0: the caller gives up after that many scheduling steps
+	type gop struct{ Kind, Obj, Mode, How, Arg, Cancel int }
 	var plans [][]gop
 	for ci := 0; ci < clients; ci++ {
 		var ops []gop
 		for i, n := 0, 2+t.Choose(8); i < n; i++ {
-			ops = append(ops, gop{Kind: t.Pick(4, 5, 1), Obj: t.Choose(len(objs)), Mode: t.Pick(4, 1, 1, 1, 1), How: t.Choose(nConsumeKinds), Arg: t.Choose(16)})
+			ops = append(ops, gop{Kind: t.Pick(4, 5, 1), Obj: t.Choose(len(objs)), Mode: t.Pick(4, 1, 1, 1, 1), How: t.Choose(nConsumeKinds), Arg: t.Choose(16), Cancel: t.Pick(5, 1) * (1 + t.Choose(40))})
 		}
 		plans = append(plans, ops)
 	}
@@ -176,6 +178,7 @@ func c04GRPCStreams(c *sim.RunCtx) {
 	srvPool.eofWithData, cliPool.eofWithData = eofWithData, eofWithData
 	handlersRunning := 0
 	opsDone := 0
+	poolWhole := true
 	c.Sim(sim.SimOpts{MaxSteps: 300000, DeadlockClass: "deadlock"}, func(s *rt.Sched) {
 		backend = newModelStore(c, "backend", digest.KeyWithInstance)
 		backend.TrackSources = true
@@ -224,6 +227,19 @@ func c04GRPCStreams(c *sim.RunCtx) {
 						return
 					}
 					ob := objs[o.Obj]
+					ctx := ctx
+					if o.Cancel > 0 {
+						var cancel context.CancelFunc
+						ctx, cancel = context.WithCancel(ctx)
+						delay := o.Cancel
+						s.Go("canceller", func() {
+							for i := 0; i < delay; i++ {
+								rt.Yield("cancel-delay")
+							}
+							cancel()
+						})
+						c.Count("fault_caller_cancelled", 1)
+					}
 					switch o.Kind {
 					case 0:
 						b := trackedUpload(t, &uploads, ob.D, ob.Data, o.Mode, fmt.Sprintf("%s.%d", tag, oi))
@@ -245,8 +261,33 @@ func c04GRPCStreams(c *sim.RunCtx) {
 		}
 		s.WaitUntil("clients done", func() bool { return done == len(plans) })
 		c.Picker.Fair = true
-		s.WaitUntil("quiescence", func() bool { return s.Quiescent(0) && s.PendingTimers() == 0 })
+			s.WaitUntil("quiescence", func() bool { return s.Quiescent(0) && s.PendingTimers() == 0 })
+		// the pools themselves are whole again: their full capacity can
+		// be taken out once more (a wrapper that was closed without the
+		// pool getting its slot back would leave this waiting forever)
+		probed := false
+		s.Go("pool-probe", func() {
+			for _, p := range []*countingPool{srvPool, cliPool} {
+				var encs []bb_zstd.Encoder
+				var decs []bb_zstd.Decoder
+				for i := int64(0); i < poolLimit; i++ {
+					e, err1 := p.base.NewEncoder(context.Background(), io.Discard)
+					d, err2 := p.base.NewDecoder(context.Background(), bytes.NewReader(nil))
+					if err1 != nil || err2 != nil {
+						return
+					}
+					encs, decs = append(encs, e), append(decs, d)
+				}
+				for i := range encs {
+					encs[i].Close()
+					decs[i].Close()
+				}
+			}
+			probed = true
+		})
+		s.WaitUntil("pool probe", func() bool { return probed || s.Quiescent(0) })
 		c.Picker.Fair = false
+		poolWhole = probed
 	})
 	if c.Failed() {
 		return
@@ -269,6 +310,11 @@ func c04GRPCStreams(c *sim.RunCtx) {
 		}
 		c.Count("probe_backend_stream_closed_once", 1)
 	}
+	if !poolWhole {
+		c.Fail("pooled-resource-not-returned", "after every operation returned, the zstd pools' full capacity (%d encoders and decoders each) can no longer be taken out: a slot was never given back [%s]", poolLimit, desc)
+		return
+	}
+	c.Count("probe_zstd_pool_capacity_whole", 1)
 	for _, p := range []*countingPool{srvPool, cliPool} {
 		if p.encOut != 0 || p.decOut != 0 {
 			c.Fail("pooled-resource-not-returned", "the %s's zstd pool is still missing %d encoder(s) and %d decoder(s) (acquired %d/%d) after every operation returned [%s]", p.name, p.encOut, p.decOut, p.encAcquired, p.decAcquired, desc)
